@@ -57,10 +57,25 @@ def main():
     req = json.load(sys.stdin)
     P = parsers()
     if "raw" in req:
+        import signal
+
+        class Budget(Exception):
+            pass
+
+        def on_alarm(signum, frame):
+            raise Budget()
+        signal.signal(signal.SIGALRM, on_alarm)
         out = []
         for call, args, data in req["raw"]:
             try:
-                out.append(dict(result=jsonable(normalise(call, P[call].unmarshall_datain(bytearray(data), **args)))))
+                signal.setitimer(signal.ITIMER_REAL, 0.4)
+                try:
+                    res = P[call].unmarshall_datain(bytearray(data), **args)
+                finally:
+                    signal.setitimer(signal.ITIMER_REAL, 0)
+                out.append(dict(result=jsonable(normalise(call, res))))
+            except (Budget, MemoryError):
+                out.append(dict(exn="Diverges"))
             except Exception as e:  # noqa
                 out.append(dict(exn=type(e).__name__))
         print(json.dumps(out))
